@@ -93,6 +93,28 @@ def load_known():
         return json.load(f)
 
 
+def _in_big_frame(fn):
+    """CPython 3.12 keeps interpreter frames in 16 KB 'data stack chunks' that are mmap'ed when the call
+    depth crosses a chunk boundary and munmap'ed when it drops back: an interpreter loop that happens to sit
+    at a boundary and calls a Python function per instruction (the VM hook does) pays one mmap/munmap pair
+    per call (measured: 28 000 pairs in a 4 s shard, 10x slowdown with 16 shards in this sandbox).  Running
+    the shard below one frame with > 1 MB of local-variable slots makes CPython allocate a single 2 MB chunk
+    with ~1 MB of room, so nested frames no longer cross chunk boundaries."""
+    try:
+        n = 140000
+        # (a call with many arguments does not work: the compiler builds the argument tuple incrementally;
+        # local variables do count towards the frame size)
+        src = "def _big(fn):\n    if fn is None:\n        " + " = ".join("v%d" % i for i in range(n)) + " = None\n    return fn()\n"
+        ns = {}
+        exec(compile(src, "<bigframe>", "exec"), ns)
+        big = ns["_big"]
+        if big.__code__.co_nlocals < n:
+            return fn()
+    except Exception:
+        return fn()
+    return big(fn)
+
+
 def worker_main(argv):
     """entry of one shard process: run.py --worker CID TIER SEED SHARD N OUT"""
     cid, tier, seed, shard, n, outp = argv[0], argv[1], int(argv[2]), int(argv[3]), int(argv[4]), argv[5]
@@ -100,11 +122,11 @@ def worker_main(argv):
     t0 = time.time()
     try:
         mod = load_check(cid)
-        mod.run_shard(tier, seed, shard, n, R)
+        _in_big_frame(lambda: mod.run_shard(tier, seed, shard, n, R))
     except BaseException as e:  # harness failure => inconclusive
         import traceback
         R.inconclusive.append("harness error in shard %d: %s: %s | %s" % (
-            shard, type(e).__name__, e, traceback.format_exc(limit=6).replace("\n", " / ")[-900:]))
+            shard, type(e).__name__, e, traceback.format_exc(limit=6).replace("\n", " / ")[-500:]))
     R.counters["shard_wall_ms"] = int((time.time() - t0) * 1000)
     with open(outp, "w") as f:
         json.dump(R.to_json(), f)
@@ -219,8 +241,8 @@ def run_check(cid, tier="quick", seed=0, replay_path=None, nshards=None, quiet=F
         print("  key=%s count=%d: %s" % (v["key"], v["count"], v["what"]))
     if len(new) > MAX_VIOLATION_LINES:
         print("  (+%d further distinct violation keys not listed)" % (len(new) - MAX_VIOLATION_LINES))
-    for r in merged.inconclusive[:10]:
-        print("INCONCLUSIVE property=%s reason=%s" % (cid, r))
+    for r in merged.inconclusive[:5]:
+        print("INCONCLUSIVE property=%s reason=%s" % (cid, r[:700]))
     if not quiet:
         print("%s %s seed=%d: evaluations=%d distinct_nontrivial=%d violations(new=%d known=%d) wall=%.1fs"
               % (cid, tier, seed, merged.evaluations, len(merged.nontrivial), len(new), len(old), wall))
